@@ -25,7 +25,7 @@ MANIFEST = {
             "Base58 parsers return None for everything and address production raises ImportError; Bech32 on those networks is covered.",
     "technique": "Lean 4 proof (generic in the codecs, table side conditions by decide +kernel) + differential correspondence model vs implementation",
 }
-RULE = ("ops c08kind/c08addr/c08parse/c08info/c08forinfo/c08keyaddr/c08foraddress/c08keyseq (key-object histories) on all networks; kinds x networks x hashes, "
+RULE = ("ops c08txin (TxIn.public_key_sec/address on p2pkh solutions and near misses)/c08registry/c08netfor (every module name and symbol, unknown names)/c08contract (nulldata, nulldata_push, p2s, p2s_wit over push-size boundaries)/c08override (Contract.override_network across networks, with disassembly)/c08kind/c08addr/c08parse/c08info/c08forinfo/c08keyaddr/c08foraddress/c08keyseq (key-object histories) on all networks; kinds x networks x hashes, "
         "all ordered network pairs, payload lengths 0..40 per Base58 prefix, every push form of template data, random scripts, "
         "m-of-n with odd count opcodes; distinct = distinct op line; trivial = result None/unknown")
 ASSUMPTIONS = ["Base58Check/Bech32 and the hashes enter the theorems as functions with the C11 round-trip facts as hypotheses",
@@ -108,6 +108,40 @@ def impl(op: str) -> str:
     if k == "c08parse":
         net = NETS[a[1]]
         return show_contract(net, _quiet(net.parse.address, text_of(a[2])))
+    if k == "c08txin":
+        net = NETS[a[1]]
+        t = net.tx.TxIn(b"\0" * 32 if a[2] == "1" else b"\x11" * 32, 0xFFFFFFFF if a[2] == "1" else 0, unhx(a[3]))
+        sec, ad = _quiet(t.public_key_sec), _quiet(t.address, net.address)
+        return "ok sec=%s address=%s" % (("None" if sec[1] is None else hx(sec[1])) if sec[0] == "ok" else "err:" + sec[1],
+                                         ("None" if ad[1] is None else ad[1]) if ad[0] == "ok" else "err:" + ad[1])
+    if k == "c08registry":
+        from pycoin.networks import registry
+        r = _quiet(registry.network_codes)
+        return "err " + r[1] if r[0] == "err" else "ok " + ",".join(r[1])
+    if k == "c08netfor":
+        from pycoin.networks import registry
+        r = _quiet(registry.network_for_netcode, text_of(a[1]))
+        if r[0] == "err":
+            return "err " + r[1]
+        mods = [m for m, n in NETS.items() if n is r[1]]
+        return "ok " + (mods[0] if mods else "?")
+    if k == "c08contract":
+        c = NETS["btc"].contract
+        f = {"nulldata": c.for_nulldata, "nulldata_push": c.for_nulldata_push, "p2s": c.for_p2s, "p2s_wit": c.for_p2s_wit}[a[1]]
+        r = _quiet(f, unhx(a[2]))
+        return "err " + r[1] if r[0] == "err" else "ok " + hx(r[1])
+    if k == "c08override":
+        r = _quiet(NETS[a[1]].parse.address, text_of(a[3]))
+        if r[0] == "err":
+            return "err " + r[1]
+        if r[1] is None:
+            return "ok None"
+        c2 = r[1].override_network(NETS[a[2]])
+        sc, ad, asm = _quiet(c2.script), _quiet(c2.address), _quiet(c2.disassemble)
+        h = c2.hash160()
+        return "ok script=%s address=%s asm=%s h160=%s" % (hx(sc[1]) if sc[0] == "ok" else "err:" + sc[1],
+                                                           ("None" if ad[1] is None else ad[1]) if ad[0] == "ok" else "err:" + ad[1],
+                                                           th(asm[1]) if asm[0] == "ok" else "err:" + asm[1], "None" if h is None else hx(h))
     if k == "c08foraddress":
         r = _quiet(NETS[a[1]].contract.for_address, text_of(a[2]))
         return "err " + r[1] if r[0] == "err" else ("ok None" if r[1] is None else "ok " + hx(r[1]))
@@ -270,7 +304,65 @@ def _parse_disabled(name):
     return "address" in vars(NETS[name].parse)
 
 
+def _oracle2(a, k, out):
+    if k == "c08txin" and out.startswith("ok "):
+        sec = out.split(" ")[1][4:]
+        ad = out.split(" ")[2][8:]
+        if a[2] == "1" and (sec != "None" or ad != "(coinbase)"):
+            return "the coinbase input reports a key or an address"
+        if a[2] == "0" and not sec.startswith("err:"):
+            if sec == "None" and ad != "(unknown)":
+                return "an input that reveals no key reports an address"
+            if sec != "None":
+                want = impl("c08kind %s p2pkh %s" % (a[1], hx(_hash160_ref(unhx(sec)))))
+                if want.startswith("ok ") and ad != want[3:]:
+                    return "TxIn.address is not the address of the key the input reveals"
+                ps = pushes(unhx(sec))
+                if not any(unhx(a[3]).endswith(p_) for p_ in ps):
+                    return "public_key_sec is not the data of the script's last push"
+    if k == "c08registry":
+        if not out.startswith("ok "):
+            return "network_codes() raised: " + out
+        got = out[3:].split(",")
+        want = [NETS[m].symbol.upper() for m in NAMES]
+        if sorted(got) != sorted(want) or len(set(got)) != len(got):
+            return "network_codes() is not one symbol per module under pycoin/symbols"
+    if k == "c08netfor":
+        t = text_of(a[1])
+        hit = [m for m in NAMES if m == t.lower() and NETS[m].symbol.upper() == t.upper()]
+        if out.startswith("ok ") != bool(hit) or (hit and out != "ok " + hit[0]):
+            return "network_for_netcode(%r): %s, registered modules with that symbol: %s" % (t, out, hit)
+    if k == "c08contract" and out.startswith("ok "):
+        d, sc = unhx(a[2]), unhx(out[3:])
+        if a[1] == "nulldata" and sc != b"\x6a" + d:
+            return "for_nulldata is not OP_RETURN followed by the data"
+        small = ([bytes([0x50 + d[0]])] if len(d) == 1 and 1 <= d[0] <= 16 else []) + ([b"\x4f"] if d == b"\x81" else []) + ([b"\x00", b""] if not d else [])
+        if a[1] == "nulldata_push" and (sc[:1] != b"\x6a" or sc[1:] not in pushes(d) + small):
+            return "for_nulldata_push is not OP_RETURN followed by one push of the data"
+        if a[1] == "p2s" and sc != b"\xa9\x14" + _hash160_ref(d) + b"\x87":
+            return "for_p2s is not the P2SH script of hash160(script)"
+        if a[1] == "p2s_wit" and sc != b"\x00\x20" + hashlib.sha256(d).digest():
+            return "for_p2s_wit is not the P2WSH script of sha256(script)"
+    if k == "c08override" and out.startswith("ok script="):
+        src = impl("c08parse %s %s" % (a[1], a[3]))
+        sc = out.split(" ")[1][len("script="):]
+        ad = out.split(" ")[2][len("address="):]
+        if " script=%s " % sc not in src + " ":
+            return "override_network changed the script of the contract"
+        h160 = out.split(" ")[4][len("h160="):]
+        kind, _, payload = src[3:].split(" ")[0].partition(":")
+        if (h160 != "None") != (kind in ("p2pkh", "p2sh", "p2pkh_wit")) or (h160 != "None" and h160 != payload):
+            return "Contract.hash160() is not the 20-byte hash of a hash160-based contract (None otherwise)"
+        want = impl("c08addr %s %s" % (a[2], sc))
+        if want.startswith("ok ") and ad != want[3:]:
+            return "the overridden contract's address is not the other network's address for its script"
+    return None
+
+
 def _oracle(op: str, out: str):
+    r2 = _oracle2(op.split(" "), op.split(" ")[0], out)
+    if r2:
+        return r2
     a = op.split(" ")
     k = a[0]
     if k in ("c08kind", "c08addr") and _parse_disabled(a[1]):
@@ -402,6 +494,37 @@ def _gen(ctx, emit):
         base = [b"\0" * n, b"\xff" * n, bytes(range(n)), bytes([0x12] * n), bytes([0x99] * n)]
         return base + [rb(n) for _ in range(ctx.n(2, 40))]
 
+    # TxIn.public_key_sec / address: pay-to-public-key-hash solutions, and scripts that are not
+    for name in rng.sample(NAMES, min(len(NAMES), ctx.n(6, 60))) + ["btc"]:
+        sig = b"\x30" + rb(rng.choice([8, 69, 70, 71])) + b"\x01"
+        for sec in (b"\x02" + rb(32), b"\x04" + rb(64), rb(33), b"\x02"):
+            good = pushes(sig)[0] + pushes(sec)[0]
+            emit("c08txin %s 0 %s" % (name, hx(good)))
+        emit("c08txin %s 1 %s" % (name, hx(good)))
+        emit("c08txin %s 0 %s" % (name, hx(pushes(b"\x31" + sig[1:])[0] + pushes(sec)[0])))      # first push is not a DER signature
+        emit("c08txin %s 0 %s" % (name, hx(pushes(sig)[0] + b"\x76")))                            # second item is an opcode
+        emit("c08txin %s 0 %s" % (name, hx(pushes(sig)[0] + b"\x00")))                            # … is OP_0
+        emit("c08txin %s 0 %s" % (name, hx(pushes(sig)[0] + pushes(sec)[0] + b"\xac")))           # three items
+        emit("c08txin %s 0 %s" % (name, hx(pushes(sig)[0])))                                       # one item
+        emit("c08txin %s 0 %s" % (name, hx(pushes(sig)[0] + pushes(sec)[0][:-3])))                # truncated push
+        emit("c08txin %s 0 %s" % (name, hx(b"\x4c" + bytes([len(sig)]) + sig + pushes(sec)[0]))) # non-minimal first push
+        emit("c08txin %s 0 -" % name)
+        emit("c08txin %s 0 %s" % (name, hx(rb(rng.randrange(1, 12)))))
+    # registry, the remaining contract builders, Contract.override_network
+    emit("c08registry")
+    for name in NAMES:
+        emit("c08netfor " + th(name))
+        emit("c08netfor " + th(NETS[name].symbol))
+        emit("c08netfor " + th(NETS[name].symbol.lower().capitalize()))
+    for t in ("", "nosuch", "btc2", "b", "BTCX", "x" * 40, "btc_", "_btc", "network", "symbols", "__init__"):
+        emit("c08netfor " + th(t))
+    for n in (0, 1, 2, 20, 40, 75, 76, 80, 255, 256, 520):
+        d = rb(n)
+        for kind in ("nulldata", "nulldata_push", "p2s", "p2s_wit"):
+            emit("c08contract %s %s" % (kind, hx(d)))
+    emit("c08contract nulldata_push 01")
+    emit("c08contract nulldata_push 81")
+    emit("c08contract nulldata_push 10")
     b58nets = [n for n in NAMES if n not in GRS]
     made = []  # (net, text) of every address produced, for the cross-network stream
     # 1. all kinds x all networks x hashes; and for_script of the standard script
@@ -417,6 +540,10 @@ def _gen(ctx, emit):
                     made.append((name, r[1]))
                     emit("c08parse %s %s" % (name, th(r[1])))
                     emit("c08foraddress %s %s" % (name, th(r[1])))
+        for kind in STD:
+            r = _quiet(getattr(net.address, "for_" + kind), rb(32 if kind in ("p2sh_wit", "p2tr") else 20))
+            if r[0] == "ok" and r[1]:
+                emit("c08override %s %s %s" % (name, rng.choice(NAMES), th(r[1])))
         # wrong-size arguments to the producers (assertions in the segwit ones)
         for kind in STD + ("p2s", "p2s_wit"):
             for ln in (0, 1, 19, 20, 21, 31, 32, 33, 40):
